@@ -23,4 +23,9 @@ def convert_code_string(code: str, filename="<string>", configs: Configs | None 
     if configs.unparser == "oneliner":
         return expr_unparse(out)
     else:
-        return ast.unparse(out).replace("\n", "")
+        try:
+            return ast.unparse(out).replace("\n", "")
+        except RecursionError:
+            # ast.unparse is recursive, it is not able to unparse a deeply nested expr
+            # (e.g. a chain of a thousand operators), expr_unparse is not recursive
+            return expr_unparse(out)
